@@ -228,6 +228,51 @@ def register_units(UNITS, gen):
             out.append("(%s, %s)" % (f, "true" if logs else "false"))
         return "[" + "; ".join(out) + "]"
 
+    IO_METHODS = ("write", "writelines", "flush", "send", "sendall", "sendfile", "filenotfound", "write_status",
+                  "writedir", "handlerwrite")
+
+    def classification_sites(repo):
+        """Every place reachable from ProtocolMultiplexer.getProtocol — the constructors and
+        canhandlerequest() of the protocol classes and, transitively, the methods they call
+        on self — that writes to the connection.  getProtocol runs BEFORE the try statement
+        of GopherRequestHandler.handle, so such a write is not covered by its except clauses."""
+        pdir = os.path.join(repo, "pygopherd", "protocols")
+        methods = {}      # method name -> [(module.Class, node)]
+        for fnm in sorted(os.listdir(pdir)):
+            if not fnm.endswith(".py") or fnm.startswith("test_"):
+                continue
+            tree = gen.parse(repo, "pygopherd/protocols/" + fnm)
+            for n in tree.body:
+                if isinstance(n, ast.ClassDef):
+                    for m in n.body:
+                        if isinstance(m, ast.FunctionDef):
+                            methods.setdefault(m.name, []).append(("%s.%s" % (fnm[:-3], n.name), m))
+                elif isinstance(n, ast.FunctionDef) and fnm == "ProtocolMultiplexer.py":
+                    methods.setdefault(n.name, []).append((fnm[:-3], n))
+        if "getProtocol" not in methods or "canhandlerequest" not in methods:
+            raise U("getProtocol / canhandlerequest not found")
+        todo, seen, sites = ["getProtocol", "__init__", "canhandlerequest"], set(), []
+        while todo:
+            name = todo.pop(0)
+            if name in seen:
+                continue
+            seen.add(name)
+            for owner, node in methods.get(name, []):
+                for x in ast.walk(node):
+                    if not isinstance(x, ast.Call):
+                        continue
+                    f = x.func
+                    if isinstance(f, ast.Attribute):
+                        d = dotted(f)
+                        if f.attr in IO_METHODS or ".wfile." in "." + d + ".":
+                            sites.append("%s.%s: %s" % (owner, name, d))
+                        # a call on self (or on the class, e.g. HTTPProtocol.canhandlerequest(self)) goes on
+                        if f.attr in methods and f.attr not in seen:
+                            todo.append(f.attr)
+                    elif isinstance(f, ast.Name) and f.id in methods and f.id not in seen:
+                        todo.append(f.id)
+        return sorted(set(sites))
+
     def unit_conn(repo):
         lines = ["(* GENERATED by translate/gen_conn.py from pygopherd/protocols/*.py and pygopherd/server.py — do not edit *)",
                  "From Coq Require Import List.", "Import ListNotations.",
@@ -237,6 +282,11 @@ def register_units(UNITS, gen):
             lines.append("  | %s => %s" % (ctor, handle_spec(repo, rel, cls, reply)))
         lines.append("  end.")
         lines.append("Definition server_spec : sspec := %s." % server_spec(repo))
+        lines.append("(* calls that write to the connection and are reachable from ProtocolMultiplexer.getProtocol,")
+        lines.append("   i.e. run before the try statement of GopherRequestHandler.handle *)")
+        lines.append("From Coq Require Import String.")
+        lines.append("Definition classify_write_sites : list string := [%s]%%string."
+                     % "; ".join('"%s"' % x.replace('"', "'") for x in classification_sites(repo)))
         return "\n".join(lines) + "\n"
 
     def unit_opens(repo):
